@@ -12,7 +12,7 @@ TRUSTED = ["Lean 4.33 kernel; axioms ⊆ {propext, Classical.choice, Quot.sound}
            "x86-TSO machine; futex contract (FUTEX_WAIT checks the value and sleeps atomically; spurious/EINTR returns unconstrained; system calls drain the store buffer); sys_membarrier = forced fence",
            "liveness is proved as 'sleeper always has a non-stuck waker with a strictly decreasing own-step measure'; 'eventually returns' additionally needs a fair scheduler",
            "lock-order deadlock freedom (rcu_gp_lock → rcu_registry_lock) is checked by the runtime's deadlock detector on explored schedules, not proved",
-           "tie: Driver/Gp.lean event-level replay of the real wait_for_readers/wait_gp/wake_up_gp/urcu-wait.h under the shim (explored schedules only); qsbr/bp flavors not covered yet"]
+           "tie: Driver/Gp.lean event-level replay of the real wait_for_readers/wait_gp/wake_up_gp/urcu-wait.h under the shim (explored schedules only); qsbr (waiting-flag handshake) and bp (poll loop, no futex) are covered by the trace tie and the deadlock/budget detectors only"]
 OWN = {"DEADLOCK", "BUDGET", "SELFLOCK", "BADUNLOCK"}
 
 
